@@ -831,6 +831,7 @@ fn gen_synth(t: &mut Tape, arch: usize) -> (String, FnSpec) {
     p.max_expr_depth = 2;
     p.raw_divisor_permille = 0;
     p.index_gaps_permille = 200;
+    p.nop_placeholders = true;
     let mut g = gen_fn(t, &p);
     for blk in g.spec.blocks.iter_mut() {
         for o in blk.iter_mut() {
